@@ -216,7 +216,8 @@ class CombineModules(Harness):
         tail_complete = current.modules[0].is_complete() if current.modules else None
         merged = mi.combine_modules(current, previous)
         after = [[ident(m) for m in previous.modules], [ident(m) for m in current.modules]]
-        return {"before": before, "after": after, "merged": ident(merged) if merged is not None else None,
+        rules = describe(merged, doms[0] + doms[1])["rules"] if merged is not None else None
+        return {"before": before, "after": after, "merged": ident(merged) if merged is not None else None, "rules": rules,
                 "merged_complete": merged.is_complete() if merged is not None else None,
                 "head_complete": head_complete, "tail_complete": tail_complete}
 
@@ -234,6 +235,8 @@ class CombineModules(Harness):
             cl.append(("merge_only_of_an_incomplete_trailing_module", out["head_complete"] is False))
             cl.append(("merged_module_is_head_then_tail", out["merged"][:len(out["before"][0][-1])] == out["before"][0][-1]
                        and out["after"][0][-1] == out["merged"]))
+            for name, ok in out["rules"].items():
+                cl.append(("merged_module_respects_" + name, ok))
         return cl
 
 
